@@ -116,7 +116,8 @@ theorem layout_independent (st : STree) (L₁ L₂ : BodyL) (n : Nat)
     (hst : st.wf = true) (h₁ : admBody st L₁ = true) (h₂ : admBody st L₂ = true)
     (h : ∀ cx, resolveN (evLit cx) n st (denoteBody L₁) = resolveN (evLit cx) n st (denoteBody L₂)) :
     resolveJ n st ⟨renderBody L₁, []⟩ = resolveJ n st ⟨renderBody L₂, []⟩ :=
-  (json_native_agree Ex.cx st L₁ n hst h₁).trans ((h Ex.cx).trans (json_native_agree Ex.cx st L₂ n hst h₂).symm)
+  let cx : Cx := ⟨fun _ => none, false, false⟩
+  (json_native_agree cx st L₁ n hst h₁).trans ((h cx).trans (json_native_agree cx st L₂ n hst h₂).symm)
 
 /-- non-vacuity: `Ex.lay` and `Ex.lay'` are different layouts, denote different `Cfg`s (argument and block
     order differ between types) and satisfy the hypotheses -/
@@ -214,7 +215,7 @@ theorem fullLabelProps_eq : ∀ (k : Nat) (part : List (String × UnderL)),
 end
 
 theorem noEmptyLabels_eq (st : STree) (L : BodyL) : noEmptyLabels st L = Proofs.noEmptyLabels st L := by
-  cases L <;> simp only [noEmptyLabels, Proofs.noEmptyLabels, fullLabels_eq]
+  cases L <;> simp only [noEmptyLabels, Proofs.noEmptyLabels, fullLabels_eq] <;> rfl
 
 /-- **Corrected converse**: a schema violation in the JSON body of a layout without empty unknown block-type
     properties and without empty label levels is a schema violation in the native body. -/
